@@ -1,6 +1,11 @@
 package main
 
-import "golang.org/x/tools/go/ssa"
+import (
+	"fmt"
+	"strings"
+
+	"golang.org/x/tools/go/ssa"
+)
 
 func init() { register("C02", checkC02) }
 
@@ -15,6 +20,29 @@ func checkC02(p *Prog, r *Report) {
 	checkAolExportLoopBounds(p, r, func(rule, rest string) string { return rule + ":C02:" + rest })
 	// a removed writer does not come back through an export that still carries it, and the keys are encoded as they are
 	checkExportBuildsFreshContainers(p, r, func(rule, rest string) string { return rule + ":C02:" + rest }, "x/aol")
+	// the writer list survives an export/import whole: the export reads the writers through the family's own list accessor (the
+	// one the every-entry and whole-family rules are about), not through a paginated or partial lister
+	{
+		m02 := buildAolModel(p)
+		found := false
+		for _, a := range m02.byFamily["Writer"] {
+			if a.Op == "Iterator" && aolOnExportPath(p, a.Fn) {
+				found = true
+			}
+		}
+		paginates := false
+		if e := p.Func(Rel("x/aol"), "ExportGenesis"); e != nil {
+			for _, g := range p.ReachFrom([]*ssa.Function{e}, func(f *ssa.Function) bool { return InModule(f) && !p.IsGenerated(f) }).Order {
+				for _, cs := range callSites(g) {
+					if strings.HasSuffix(cs.Name, "types/query.Paginate") || strings.HasSuffix(cs.Name, "types/query.FilteredPaginate") {
+						paginates = true
+					}
+				}
+			}
+		}
+		r.Check(found && !paginates, "WMC:C02:x/aol.ExportGenesis#writers-through-list-accessor", "the export reads every writer: through the writer family's list accessor, never through the page-limited query helpers", "x/aol/genesis.go",
+			"GetAll-style accessor of the Writer family on the export path, no Paginate", fmt.Sprintf("list accessor on the export path=%v, pagination helper on the export path=%v: a paginated walk without a page request stops after 100 entries — the writers beyond them are missing from the genesis file, and after an import they can no longer append although the owner never removed them", found, paginates))
+	}
 	checkNoLostReceiverWrites(p, r, "C02", "x/aol/types", func(fn *ssa.Function) bool { return inExactPkgs(fn, "x/aol/types") })
 	checkNoDroppedErrors(p, r, "C02", "x/aol/keeper, x/aol/types", func(fn *ssa.Function) bool { return InPkgs(fn, "x/aol/keeper", "x/aol/types") })
 	checkNoNilWrap(p, r, "C02", "x/aol/keeper, x/aol/types", func(fn *ssa.Function) bool { return InPkgs(fn, "x/aol/keeper", "x/aol/types") })
